@@ -2,7 +2,7 @@
    Index-level statements (any number of dimensions, any sizes, any dimension order). *)
 From Coq Require Import ZArith List Bool Permutation.
 From XV Require Import Base.Scalar Base.Mat Model.NdArr Proofs.C02_proofs.
-From XV Require Model.Pipe Model.Concat Gen.T7pipe Proofs.Pipe_proofs Proofs.Pipe_tie Proofs.Concat_proofs.
+From XV Require Model.Pipe Model.Concat Gen.T7pipe Proofs.Pipe_proofs Proofs.Pipe_tie Proofs.Concat_proofs Gen.T7chain Proofs.Chain_tie.
 Import ListNotations.
 
 Theorem C02_unflatten_flatten : forall (sh : shape) (idx : list nat), inb sh idx -> unflatten sh (flatten sh idx) = idx.
@@ -63,3 +63,11 @@ Theorem C02_concatenator_sorted_keys_refuted :
   Concat.split Concat.SortedKeys (Concat.coords_in Concat_proofs.eleven) (Concat.concat_values Concat_proofs.eleven) <> Some Concat_proofs.eleven.
 Proof. exact (proj1 Concat_proofs.sorted_keys_refuted). Qed.
 Print Assumptions C02_concatenator_sorted_keys_refuted.
+
+(* every method of every model class that carries a result back to the user's structure takes the inverse path its name stands for
+   (39 call sites regenerated from single/, cross/, multi/, validation/ on every run): fitted scores, amplitudes and phases the fit path,
+   results for new data the path of new data, patterns the component path, reconstructions the data path *)
+Theorem C02_accessors_take_their_own_way_back :
+  forallb Chain_tie.accessor_row_ok T7chain.accessor_back_table = true /\ List.length T7chain.accessor_back_table = 39.
+Proof. exact Chain_tie.accessor_back_paths. Qed.
+Print Assumptions C02_accessors_take_their_own_way_back.
